@@ -264,6 +264,11 @@ class C05(Check):
                     "creates checkable and downtimes through ConfigObjectUtility::CreateObject / Downtime::AddDowntime, one in eight additionally "
                     "schedules / removes through the API actions schedule-downtime / remove-downtime. evaluations = operations; "
                     "a case counts as non-trivial when a downtime was triggered or removed in it (counted by the Lean driver)")
+        # the start timer's firing is an oracle input taken from the implementation (a sentinel downtime); an oracle that
+        # never fires would hide a start timer that no longer starts anything
+        if stats.get("pumps", 0) > 1000 and stats.get("timerfired", 0) * 20 < stats["pumps"]:
+            res.corr_failures.append(runner.Finding("corr", "oracle:start-timer-hardly-ever-fires",
+                                                    [f"pumps={stats['pumps']} timerfired={stats.get('timerfired', 0)}"]))
         res.samples = runner.extract_case(save, 900) + ["..."] + runner.extract_case(save, stats["cases"])[:14]
         self._examine(res, harness, driver, save, lines, "gen")
         return res
